@@ -73,6 +73,26 @@ WRITE_PRIMS |= {
     "alloc::alloc::alloc_zeroed",
 }
 
+# external functions that receive `&mut`/`*mut` metadata but only derive views/pointers from it (reviewed)
+EXT_MUT_VIEWS = {
+    "slice::split_at_mut", "slice::split_last_mut", "slice::split_first_mut", "slice::as_mut_ptr", "slice::as_mut_ptr_range",
+    "slice::iter_mut", "slice::chunks_mut", "slice::len", "slice::is_empty", "slice::as_ptr", "slice::get_mut", "slice::first_mut",
+    "slice::last_mut", "ptr_mut::cast", "ptr_mut::add", "ptr_mut::sub", "ptr_mut::offset", "ptr_mut::cast_const", "ptr_mut::is_null",
+    "ptr_mut::align_offset", "ptr_mut::as_mut", "ptr_mut::as_ref", "core::slice::raw::from_raw_parts_mut", "core::slice::raw::from_raw_parts",
+    "<array as core::ops::index::IndexMut>::index_mut", "<slice as core::ops::index::IndexMut>::index_mut",
+    "core::ops::deref::DerefMut::deref_mut", "<llfree::util::Align as core::ops::deref::DerefMut>::deref_mut",
+    "core::iter::traits::iterator::Iterator::enumerate", "core::iter::traits::iterator::Iterator::zip",
+    "core::iter::traits::iterator::Iterator::map", "core::iter::traits::iterator::Iterator::rev",
+    "core::mem::size_of_val", "core::mem::align_of_val", "core::ptr::null_mut", "core::ptr::slice_from_raw_parts_mut",
+    "core::fmt::Formatter::debug_struct", "core::fmt::Formatter::write_fmt", "core::fmt::Formatter::write_str",
+}
+# external functions that write through a `&mut` argument (reviewed)
+EXT_MUT_WRITERS = {
+    "slice::fill", "slice::fill_with", "slice::copy_from_slice", "slice::clone_from_slice", "slice::swap", "slice::rotate_right",
+    "slice::rotate_left", "slice::reverse", "slice::sort", "slice::sort_unstable", "slice::swap_with_slice", "slice::copy_within",
+    "core::mem::swap", "core::mem::replace", "core::mem::take",
+}
+
 WAIT_PRIMS = {
     "llfree::util::spin_wait", "core::hint::spin_loop", "std::thread::yield_now",
     "std::thread::sleep", "std::thread::park", "core::sync::atomic::spin_loop_hint",
@@ -223,9 +243,9 @@ class Effects:
                         ty = a["place"].get("ty") or b.local_ty(a["place"]["l"])
                         mp = mut_pointee(ty)
                         if mp is not None and ty_head(mp) in METADATA_HEADS:
-                            if cn.endswith("::next") or cn.endswith("::into_iter"):
+                            if cn.endswith("::next") or cn.endswith("::into_iter") or cn in EXT_MUT_VIEWS:
                                 continue
-                            reasons.append(("extmut", cn, bi))
+                            reasons.append(("extmut" if cn in EXT_MUT_WRITERS else "extmut-unclassified", cn, bi))
                             break
         for bi, si, s in b.stmts():
             if s["k"] != "assign":
@@ -276,8 +296,9 @@ class Effects:
                     if a["k"] in ("copy", "move"):
                         ty = a["place"].get("ty") or body.local_ty(a["place"]["l"])
                         mp = mut_pointee(ty)
-                        if mp is not None and ty_head(mp) in METADATA_HEADS and not cn.endswith(("::next", "::into_iter")):
-                            out.append((cn, ("extmut", cn, None)))
+                        if mp is not None and ty_head(mp) in METADATA_HEADS and not cn.endswith(("::next", "::into_iter")) \
+                                and cn not in EXT_MUT_VIEWS:
+                            out.append((cn, ("extmut" if cn in EXT_MUT_WRITERS else "extmut-unclassified", cn, None)))
                             break
         return out
 
